@@ -88,6 +88,12 @@ func TestProducerConsumerGrid(t *testing.T) {
 			if kind == "pipe" {
 				// the pipe law with the producer as first and the consumer as second step
 				run(t, Case{Property: prop, Kind: kind, Expr: g.prod, Doc: d, Extra: map[string]interface{}{"b": strings.Replace(g.use, "%s", "@", -1)}})
+				// and referential transparency: the whole cell next to the document it was computed from
+				// (a consumer that writes into what its producer handed through changes the neighbour)
+				if i%3 == 0 {
+					run(t, Case{Property: prop, Kind: "subst", Expr: g.expr(), Doc: d, Extra: map[string]interface{}{"ctx": []string{"[%s, @]", "{k: %s, j: @}", "[@, %s, @]"}[(i/3)%3]}})
+					n++
+				}
 			} else {
 				run(t, Case{Property: prop, Kind: kind, Expr: g.expr(), Doc: d, Extra: map[string]interface{}{"cell": "grid"}})
 			}
@@ -164,5 +170,32 @@ func TestNestedCompositions(t *testing.T) {
 	st := statsFor(prop)
 	st.mu.Lock()
 	st.Exhaustive[prop+".nested-compositions"] = fmt.Sprintf("%d expressions that nest a construct inside the same or a sibling construct two to four levels deep (by-expression keys that sort, slices of slices, filters of filters, multi-selects of multi-selects, parenthesised left operands, pipes of pipes) x 3 contexts: %d cases", len(nestedExprs), n)
+	st.mu.Unlock()
+}
+
+// TestEqualityUniverse: every ordered pair of the value universe wherever the library
+// decides equality outside a bare comparator: contains(), filter conditions over arrays,
+// comparison of nested values (the helper behind == is shared by all of them).
+func TestEqualityUniverse(t *testing.T) {
+	prop := envStr("VERIF_PROP", "C09")
+	tmpls := []string{"contains(`[X]`, `Y`)", "contains(`[1,X,\"s\"]`, `Y`)", "`[X,Y]`[?@ == `Y`]", "length(`[X,Y,X]`[?@ != `Y`])", "[`X` == `Y`, `Y` != `X`]", "`[[X],[Y]]`[?@[0] == `Y`][]", "`[{\"m\":X},{\"m\":Y}]`[?m == `Y`] | length(@)", "`[X]` == `[Y]`", "`{\"k\":X}` == `{\"k\":Y}`", "contains(`[[X]]`, `[Y]`)"}
+	shard, nshards := envInt("VERIF_SHARD", 0), envInt("VERIF_NSHARDS", 1)
+	n, k := 0, 0
+	for _, x := range universeC07 {
+		for _, y := range universeC07 {
+			for _, tm := range tmpls {
+				k++
+				if k%nshards != shard {
+					continue
+				}
+				e := strings.Replace(strings.Replace(tm, "X", strings.Replace(x, "`", "\\`", -1), -1), "Y", strings.Replace(y, "`", "\\`", -1), -1)
+				run(t, Case{Property: prop, Kind: "diff", Expr: e, Doc: "null", Extra: map[string]interface{}{"cell": "equality"}})
+				n++
+			}
+		}
+	}
+	st := statsFor(prop)
+	st.mu.Lock()
+	st.Exhaustive[prop+".equality-universe"] = fmt.Sprintf("%d^2 ordered pairs of universe values x %d places where equality is decided (contains, filter conditions, nested values) (shard %d/%d: %d cases)", len(universeC07), len(tmpls), shard, nshards, n)
 	st.mu.Unlock()
 }
